@@ -179,7 +179,7 @@ def run_kani_cfg(cfg, obls, results, key):
             r['status'] = 'undecided'
             r['reason'] = 'vacuity guard: cover not satisfiable: %s' % bad_cov[:3]
         r.update(engine='kani', cfg=cfg, name=o['name'], label=o['label'], desc=o['desc'], bound=o['bound'], fns=o['fns'],
-                 cached=False)
+                 cached=False, supplementary_for=o.get('supplementary_for', []))
         results[oid] = r
         if r['status'] in ('pass', 'fail'):
             cache_put(key, oid, r)
@@ -635,7 +635,8 @@ def write_evidence(prop, tier, seed, results, key, wall, n_viol, undecided):
     total_checks = sum(r.get('n_checks') or 0 for r in results.values() if r['engine'] == 'kani')
     n = len(results)
     npass = sum(1 for r in results.values() if r['status'] == 'pass')
-    all_pc = all(r['label'] in ('P', 'C') for r in results.values()) and n > 0
+    core = [r for r in results.values() if prop not in (r.get('supplementary_for') or [])]
+    all_pc = all(r['label'] in ('P', 'C') for r in core) and len(core) > 0
     sampled = sum(r.get('evaluated') or 0 for r in results.values() if r['engine'] == 'native')
     level = 'proof' if all_pc else 'other'
     bounds = sorted(set('%s: %s' % (r['name'], r['bound']) for r in results.values() if r.get('bound')))
@@ -646,8 +647,15 @@ def write_evidence(prop, tier, seed, results, key, wall, n_viol, undecided):
         'usize is 64-bit; 32-bit targets not covered',
         'specification predicates in /verif/hook/*.rs and /verif/contracts/*.vspec say what the property says (reviewed by hand)',
     ]
+    if all_pc:
+        # proof level: only P and C obligations are counted; bounded ones are listed as supplementary
+        n_counted = len(core)
+        npass_counted = sum(1 for r in core if r['status'] == 'pass')
+    else:
+        n_counted, npass_counted = n, npass
     cov = dict(
-        obligations=n, discharged=npass,
+        obligations=n_counted, discharged=npass_counted,
+        supplementary_bounded_obligations=[k for k, r in sorted(results.items()) if prop in (r.get('supplementary_for') or [])],
         by_label=by_label,
         label_meaning=dict(P='proved: Verus, all inputs, unbounded', C='complete: CBMC over the full finite machine domain, loop-free or structurally bounded',
                            B='bounded-inductive: CBMC from every abstract state of a table with the stated bucket count; NOT counted as proved',
